@@ -156,6 +156,15 @@ def main():
             program(m, [], BASE_DECLS, ['macro mm($x: expr) { e($x, y), mm!(y) }'], BASE_RULES + ['q(x) <-- mm!(x);']),
             program(m, [], BASE_DECLS, ['macro mm($x: expr) { e($x, y), z(y) }'], BASE_RULES + ['q(x) <-- mm!(x);']),
             'recursively defined Ascent macro')
+        # .. also when no rule invokes the macro (the property speaks of a program that *defines* a self-referential macro)
+        add('macro_self_rec_uninvoked', 'x', m,
+            program(m, [], BASE_DECLS, ['macro mm($x: expr) { e($x, y), mm!(y) }'], BASE_RULES),
+            program(m, [], BASE_DECLS, ['macro mm($x: expr) { e($x, y), z(y) }'], BASE_RULES),
+            'recursively defined Ascent macro')
+        add('macro_mutual_rec_uninvoked', 'x', m,
+            program(m, [], BASE_DECLS, ['macro m1($x: expr) { e($x, y), m2!(y) }', 'macro m2($x: expr) { z($x), (p($x, _) | m1!($x)) }'], BASE_RULES + ['q(x) <-- z(x), if *x != 3;']),
+            program(m, [], BASE_DECLS, ['macro m1($x: expr) { e($x, y), m2!(y) }', 'macro m2($x: expr) { z($x), (p($x, _) | z($x)) }'], BASE_RULES + ['q(x) <-- z(x), if *x != 3;']),
+            'recursively defined Ascent macro')
         add('macro_mutual_rec', 'x', m,
             program(m, [], BASE_DECLS, ['macro m1($x: expr) { e($x, y), m2!(y) }', 'macro m2($x: expr) { z($x), m1!($x) }'], BASE_RULES + ['q(x) <-- m1!(x);']),
             program(m, [], BASE_DECLS, ['macro m1($x: expr) { e($x, y), m2!(y) }', 'macro m2($x: expr) { z($x), p($x, _) }'], BASE_RULES + ['q(x) <-- m1!(x);']),
